@@ -68,7 +68,12 @@ const c12FileRule = "case = generated multi-block file DAG; for that DAG EVERY s
 func TestC12_P_FileFaults(t *testing.T) {
 	ev := newEvid(t, c12FileRule)
 	rapid.Check(t, func(t *rapid.T) {
-		fc := genFileDAG(t, 2, 120)
+		var fc *fileCase
+		if rapid.IntRange(0, 5).Draw(t, "handmade") == 0 {
+			fc = genHandFileDAG(t) // chunks may be empty: a missing empty block still has to surface as an error
+		} else {
+			fc = genFileDAG(t, 2, 120)
+		}
 		all := fc.Tree.All()
 		if len(all) < 2 {
 			ev.Case("single-block", false, "single-block")
